@@ -1,0 +1,40 @@
+//go:build verif
+
+package minersc
+
+// Verification hook of the staking family (/verif, checks C11 and C23).  Add-only: nothing here is
+// reachable without the build tag `verif`, and no existing line of the package is changed.
+
+import (
+	"fmt"
+
+	cstate "0chain.net/chaincore/chain/state"
+	"0chain.net/smartcontract/stakepool/spenum"
+	"github.com/0chain/common/core/currency"
+)
+
+// VerifStakeReward pays `value` to the stake pool of a miner / sharder the way payFees does for one node
+// (fees.go): get the node, StakePool.DistributeRewards, save the node.
+func VerifStakeReward(ptype spenum.Provider, id string, value currency.Coin, balances cstate.StateContextI) error {
+	var (
+		mn  *MinerNode
+		err error
+		rt  = spenum.BlockRewardMiner
+	)
+	switch ptype {
+	case spenum.Miner:
+		mn, err = getMinerNode(id, balances)
+	case spenum.Sharder:
+		mn, err = getSharderNode(id, balances)
+		rt = spenum.BlockRewardSharder
+	default:
+		err = fmt.Errorf("unsupported provider type %v", ptype)
+	}
+	if err != nil {
+		return err
+	}
+	if err := mn.StakePool.DistributeRewards(value, id, ptype, rt, balances); err != nil {
+		return err
+	}
+	return mn.save(balances)
+}
